@@ -362,6 +362,7 @@ pub fn excl_actor(inst: u8) -> impl FnMut(&mut World, &mut SystemState<Readers<'
                 let u = uid(inst, *n, idx);
                 c.queue(move |_: &mut World| log(Ev::Apply(u)));
                 let _ = interp_basic(op, u, &mut c, &mut h);
+                c.queue(move |_: &mut World| log(Ev::ApplyEnd(u)));
             }
         });
         log(Ev::BodyEnd { inst, n: *n, err: false });
@@ -445,18 +446,22 @@ fn interp_basic(op: &Op, u: u32, c: &mut Commands, h: &mut H) -> Option<bool>
                 h.created[*inst as usize] = true;
                 let b = h.bundle(trigs);
                 let flavour = h.prog.insts[*inst as usize].flavour;
+                // The new system only becomes a target for other ops once its spawn command has been applied
+                // (despawning a reserved entity before `Commands::spawn` is applied is a Bevy-level panic, not under test).
+                let i = *inst;
+                let mut publish = |c: &mut Commands, sc: SystemCommand| { c.queue(move |w: &mut World| { w.resource_mut::<H>().set_inst(i, sc); }); };
                 match (mode, flavour)
                 {
-                    (Mode::Persistent, Flavour::FallibleDrop) => { let sc = c.react().on_persistent(b, plain_actor::<DropErr>(*inst)); h.set_inst(*inst, sc); }
-                    (Mode::Persistent, Flavour::Exclusive) => { let sc = c.react().on_persistent(b, excl_actor(*inst)); h.set_inst(*inst, sc); }
-                    (Mode::Persistent, _) => { let sc = c.react().on_persistent(b, plain_actor::<()>(*inst)); h.set_inst(*inst, sc); }
-                    (Mode::Revokable, Flavour::FallibleDrop) => { let t = c.react().on_revokable(b, plain_actor::<DropErr>(*inst)); h.set_inst(*inst, SystemCommand::from(t.clone())); h.tokens[*inst as usize] = Some(t); }
-                    (Mode::Revokable, Flavour::Exclusive) => { let t = c.react().on_revokable(b, excl_actor(*inst)); h.set_inst(*inst, SystemCommand::from(t.clone())); h.tokens[*inst as usize] = Some(t); }
-                    (Mode::Revokable, _) => { let t = c.react().on_revokable(b, plain_actor::<()>(*inst)); h.set_inst(*inst, SystemCommand::from(t.clone())); h.tokens[*inst as usize] = Some(t); }
+                    (Mode::Persistent, Flavour::FallibleDrop) => { let sc = c.react().on_persistent(b, plain_actor::<DropErr>(i)); publish(c, sc); }
+                    (Mode::Persistent, Flavour::Exclusive) => { let sc = c.react().on_persistent(b, excl_actor(i)); publish(c, sc); }
+                    (Mode::Persistent, _) => { let sc = c.react().on_persistent(b, plain_actor::<()>(i)); publish(c, sc); }
+                    (Mode::Revokable, Flavour::FallibleDrop) => { let t = c.react().on_revokable(b, plain_actor::<DropErr>(i)); publish(c, SystemCommand::from(t.clone())); h.tokens[i as usize] = Some(t); }
+                    (Mode::Revokable, Flavour::Exclusive) => { let t = c.react().on_revokable(b, excl_actor(i)); publish(c, SystemCommand::from(t.clone())); h.tokens[i as usize] = Some(t); }
+                    (Mode::Revokable, _) => { let t = c.react().on_revokable(b, plain_actor::<()>(i)); publish(c, SystemCommand::from(t.clone())); h.tokens[i as usize] = Some(t); }
                     // `on` returns nothing: the reactor's entity stays unknown to the harness
-                    (Mode::Cleanup, Flavour::FallibleDrop) => { c.react().on(b, plain_actor::<DropErr>(*inst)); }
-                    (Mode::Cleanup, Flavour::Exclusive) => { c.react().on(b, excl_actor(*inst)); }
-                    (Mode::Cleanup, _) => { c.react().on(b, plain_actor::<()>(*inst)); }
+                    (Mode::Cleanup, Flavour::FallibleDrop) => { c.react().on(b, plain_actor::<DropErr>(i)); }
+                    (Mode::Cleanup, Flavour::Exclusive) => { c.react().on(b, excl_actor(i)); }
+                    (Mode::Cleanup, _) => { c.react().on(b, plain_actor::<()>(i)); }
                 }
             }
         }
@@ -567,7 +572,7 @@ pub fn interp(ops: &[Op], issuer: u8, run: u32, p: &mut PlainParams) -> bool
         match interp_basic(op, u, &mut p.c, &mut p.h)
         {
             Some(true) => return true,
-            Some(false) => continue,
+            Some(false) => { p.c.queue(move |_: &mut World| log(Ev::ApplyEnd(u))); continue; }
             None => {}
         }
         match op
@@ -627,6 +632,7 @@ pub fn interp(ops: &[Op], issuer: u8, run: u32, p: &mut PlainParams) -> bool
             },
             _ => {}
         }
+        p.c.queue(move |_: &mut World| log(Ev::ApplyEnd(u)));
     }
     false
 }
@@ -834,22 +840,20 @@ fn post_obs(world: &mut World) -> Post
 }
 
 #[cfg(ukoehb_bevy_cobweb_verif)]
-fn drain_runner_log()
+fn runner_hook(ev: bevy_cobweb::verif::RunnerEv)
 {
     use bevy_cobweb::verif::RunnerEv::*;
-    for ev in bevy_cobweb::verif::take_runner_log()
+    let (k, e) = match ev
     {
-        let (k, e) = match ev
-        {
-            Enter(e, idx) => (if idx == 0 { 0 } else { 1 }, e),
-            Run(e) => (2, e),
-            Postpone(e) => (3, e),
-            Abort(e) => (4, e),
-            Discard(e) => (5, e),
-            RootExit(e) => (6, e),
-        };
-        log(Ev::Runner(k, e.to_bits()));
-    }
+        Enter(e, idx) => (if idx == 0 { obs::RK_ENTER_ROOT } else { obs::RK_ENTER }, e),
+        Run(e) => (obs::RK_RUN, e),
+        Postpone(e) => (obs::RK_POSTPONE, e),
+        Abort(e) => (obs::RK_ABORT, e),
+        Discard(e) => (obs::RK_DISCARD, e),
+        RootExit(e) => (obs::RK_ROOT_EXIT, e),
+        Exit(e) => (obs::RK_EXIT, e),
+    };
+    log(Ev::Runner(k, e.to_bits()));
 }
 
 //-------------------------------------------------------------------------------------------------------------------
@@ -957,7 +961,7 @@ fn run_inner(prog: &Arc<Program>)
     h.base_entities = before; // world-reactor systems and anything the plugin spawned
     world.insert_resource(h);
     #[cfg(ukoehb_bevy_cobweb_verif)]
-    bevy_cobweb::verif::record_runner(true);
+    bevy_cobweb::verif::set_runner_hook(Some(runner_hook));
 
     for (i, step) in prog.steps.iter().enumerate()
     {
@@ -974,14 +978,12 @@ fn run_inner(prog: &Arc<Program>)
             }
             Step::Update => { app.update(); }
         }
-        #[cfg(ukoehb_bevy_cobweb_verif)]
-        drain_runner_log();
         log(Ev::StepEnd(i));
         let post = post_obs(app.world_mut());
         log(Ev::Post(Box::new(post)));
     }
     #[cfg(ukoehb_bevy_cobweb_verif)]
-    bevy_cobweb::verif::record_runner(false);
+    bevy_cobweb::verif::set_runner_hook(None);
     // drop the world inside the run so that late drops are attributed to it, then discard them
     let n = obs::len();
     drop(app);
